@@ -105,6 +105,12 @@ class Interp:
         self.fn_param = fn_param
         self.seq_param = seq_param
         self.funcs = {n.name: n for n in ast.walk(fnode) if isinstance(n, ast.FunctionDef) and n is not fnode}
+        # integer facts from early exits:  if <name> == 1: return ...   =>  <name> != 1 afterwards
+        self.not_one = set()
+        for st in fnode.body:
+            if isinstance(st, ast.If) and isinstance(st.test, ast.Compare) and isinstance(st.test.left, ast.Name) and len(st.test.ops) == 1 and isinstance(st.test.ops[0], ast.Eq) \
+                    and const_value(st.test.comparators[0], None) == 1 and st.body and isinstance(st.body[-1], (ast.Return, ast.Raise)):
+                self.not_one.add(st.test.left.id)
         self.applications = 0      # applications of fn that were judged
         self.violations = []       # (node, message, trail)
         self.unknown_uses = []     # fn applied to something the domain lost track of
@@ -160,6 +166,12 @@ class Interp:
             return self.concat(e, st, self.ev(e.left, st), self.ev(e.right, st))
         if isinstance(e, ast.Call):
             return self.call(e, st)
+        if isinstance(e, (ast.GeneratorExp, ast.ListComp)) and len(e.generators) == 1:
+            inner = st.fork()
+            for y in ast.walk(e.generators[0].target):
+                if isinstance(y, ast.Name):
+                    inner.env[y.id] = UNKNOWN
+            return ("gen", self.ev(e.elt, inner))
         if isinstance(e, ast.IfExp):
             return UNKNOWN
         return UNKNOWN
@@ -195,7 +207,15 @@ class Interp:
             if step is not None and cv(step) == -1 and lo is None and hi is None:
                 return Seq({ASC: DESC, DESC: ASC}.get(base.kind, NONE), base.lo, base.hi, base.minlen, base.chunks)
             if step is not None:
-                return Seq(NONE, None, None, 0, base.chunks)
+                unit = cv(step) == 1
+                non_unit = (isinstance(cv(step), int) and cv(step) not in (1, "?")) or (isinstance(step, ast.Name) and step.id in self.not_one)
+                if unit:
+                    pass
+                elif non_unit:
+                    # every k-th element, k != 1: the elements are not adjacent operands
+                    return Seq(NONE, None, None, 0, base.chunks)
+                else:
+                    return UNKNOWN
             if lo is None and cv(hi) == -1:      # x[:-1]
                 init, last, m = self._split_cached(st, base, "last")
                 return init
@@ -210,7 +230,10 @@ class Interp:
                 return Seq(base.kind, first.lo, first.hi, 1, base.chunks) if isinstance(first, (Elem, Seq)) else Seq(NONE, None, None, 1, base.chunks)
             if lo is None and hi is None:
                 return base
-            return Seq(NONE, None, None, 0, base.chunks)
+            # a contiguous block at a position the domain does not track: still in operand order, over a fresh sub-interval
+            if base.kind in (ASC, DESC):
+                return Seq(base.kind, next(_sym), next(_sym), 0, base.chunks)
+            return UNKNOWN
         c = const_value(sl, "?")
         if isinstance(sl, ast.UnaryOp) and isinstance(sl.op, ast.USub):
             c = -const_value(sl.operand, 0) if const_value(sl.operand, "?") != "?" else "?"
@@ -264,6 +287,11 @@ class Interp:
         if base == "map" and len(args) == 2:   # map(f, X) / pool.map(f, X)
             f = self.ev(args[0], st)
             v = self.ev(args[1], st)
+            if isinstance(v, tuple) and v and v[0] == "gen":
+                # f applied to each element of a comprehension: judged for what it does to one element; the order *between* the
+                # results is not tracked
+                self.call_value(e, st, f, [v[1]])
+                return UNKNOWN
             if not isinstance(v, Seq):
                 return UNKNOWN
             if v.kind == NONE:
@@ -277,6 +305,8 @@ class Interp:
             if isinstance(out, Elem) and st.uf.same(out.lo, a) and st.uf.same(out.hi, b):
                 return Seq(v.kind, v.lo, v.hi, v.minlen)
             return UNKNOWN
+        if base == "partial" and len(args) == 2 and (dotted(args[0]) or "").split(".")[-1] == "reduce" and self.ev(args[1], st) == ("fn",):
+            return ("foldfn",)
         if base == "reduce" and len(args) >= 2:
             f = self.ev(args[0], st)
             if f == ("fn",):
@@ -311,6 +341,8 @@ class Interp:
         return self.call_value(e, st, callee, vals)
 
     def call_value(self, node, st, callee, vals):
+        if callee == ("foldfn",):
+            return self.fold_seq(node, st, vals[0]) if len(vals) == 1 and isinstance(vals[0], Seq) else UNKNOWN
         if callee == ("fn",):
             if len(vals) == 1 and isinstance(vals[0], tuple) and vals[0][0] == "star":
                 return self.fold_seq(node, st, vals[0][1])
